@@ -5,7 +5,7 @@ From Coq Require Extraction.
 From Coq Require Import ExtrOcamlBasic.
 From Coq Require Import List ZArith QArith Qcanon.
 From GL Require Import Lib.Arr Lib.Blocks Model.Dom Model.Scalar Model.Reduce Spec.Defs Spec.Exec
-  Model.Select Model.Cumulative Model.Rolling Model.Ema Spec.RowSpec Model.GroupByApi Model.Factorize Model.Nanops Model.Validate Model.Helpers Proofs.CombineProofs Proofs.VarFloat Model.Moments Proofs.MomentsProofs.
+  Model.Select Model.Cumulative Model.Rolling Model.Ema Spec.RowSpec Model.GroupByApi Model.Factorize Model.Nanops Model.Validate Model.Helpers Proofs.CombineProofs Proofs.VarFloat Model.Moments Proofs.MomentsProofs Model.Margins.
 Extraction Language OCaml.
 Extraction "model.ml"
   Z.add Z.mul Z.opp Z.sub Z.div_eucl Z.of_nat Z.to_nat Z.eqb Z.ltb Z.leb Z.compare
@@ -17,7 +17,7 @@ Extraction "model.ml"
   find_nth find_first_or_last_n nth_spec first_n_spec last_n_spec
   cumulative cumulative_t cum_spec cumsum_noskip_spec
   rolling_sum_or_mean rolling_max_or_min rolling_shift_or_diff window_spec shift_spec
-  group_mean_ticks var_bound nan_reduce nb_reduce row_mask mask_labels bin_code
+  add_row_margin group_mean_ticks var_bound nan_reduce nb_reduce row_mask mask_labels bin_code
   validate_lengths_and_indexes preprocess_ok
   weight_code_sum code_weights relabel combine_factorizations combine_inplace combine_inplace_matrix build_group_sorted_indexer monotonic_factorization
   apply_across_chunks chunk_cells unify_codes observed_flags reported mean_column transform_gather
